@@ -187,8 +187,8 @@ def wl_geometry(ctx, rng, case):
     f = P.ExpandingBloomFilter(est_elements=est, false_positive_rate=rate, **bl.kw_hash(hf))
     effective = calls = 0
     i = 0
-    target = 2 * est + 2
-    boundaries = {est - 1, est, est + 1, 2 * est, 2 * est + 1}
+    target = 2 * est + 2 if est > 50 else 6 * est + 2  # small sizings: across six growths
+    boundaries = {est - 1, est, est + 1, 2 * est, 2 * est + 1, 5 * est, 5 * est + 1, 6 * est}
     while effective < target and i < 3 * target + 50:
         key = f"geo-{case.index}-{i}"
         i += 1
